@@ -168,64 +168,57 @@ class SolverWrapper:
         
         utils.logger.debug(f"{__name__}: solver_options (kwargs) = {kwargs}")
 
-        # Pending bound updates to apply in batch before solving
-        # Stores backend variables directly
-        self._pending_fix_vars = []      # list[var]
-        self._pending_fix_vals = []      # list[float]
-        self._pending_lb_vars = []       # list[var]
-        self._pending_lb_vals = []       # list[float]
+        # Pending bound updates to apply in batch before solving, in call order
+        # Stores backend variables directly: list of (kind, var, value) with kind in {"fix", "lb"}
+        self._pending_bound_updates = []
 
     def queue_fix_variable(self, var, value: Union[int, float]):
         """Queue a variable to be fixed (LB=UB=value) in a later batch update."""
-        self._pending_fix_vars.append(var)
-        self._pending_fix_vals.append(float(value))
+        self._pending_bound_updates.append(("fix", var, float(value)))
 
     def queue_set_var_lower_bound(self, var, lb: Union[int, float]):
         """Queue a variable to have its lower bound raised to ``lb`` in batch."""
-        self._pending_lb_vars.append(var)
-        self._pending_lb_vals.append(float(lb))
+        self._pending_bound_updates.append(("lb", var, float(lb)))
 
     def _apply_pending_bound_updates(self):
-        """Apply any queued bound fixes/updates in a backend-specific batched way."""
+        """Apply any queued bound fixes/updates in a backend-specific batched way.
+
+        The requests take effect in the order in which they were queued; a variable named by several requests
+        gets the bounds that result from applying them one after the other."""
         try:
             # Nothing to do fast exit
-            if not (self._pending_fix_vars or self._pending_lb_vars):
+            if not self._pending_bound_updates:
                 return
 
             if self.external_solver == "gurobi":
-                import gurobipy as gp
-                if self._pending_fix_vars:
-                    self.solver.setAttr(gp.GRB.Attr.LB, self._pending_fix_vars, self._pending_fix_vals)
-                    self.solver.setAttr(gp.GRB.Attr.UB, self._pending_fix_vars, self._pending_fix_vals)
-                if self._pending_lb_vars:
-                    self.solver.setAttr(gp.GRB.Attr.LB, self._pending_lb_vars, self._pending_lb_vals)
+                for kind, var, value in self._pending_bound_updates:
+                    var.LB = value
+                    if kind == "fix":
+                        var.UB = value
                 self.solver.update()
 
             elif self.external_solver == "highs":
-                # HiGHS batched updates
+                # HiGHS batched update: one call with the final bounds of every touched column
+                # (changeColsBounds wants each column at most once)
                 import numpy as np  # local alias to ensure available
-                if self._pending_fix_vars:
-                    idxs = np.array([v.index for v in self._pending_fix_vars], dtype=np.int32)
-                    vals = np.array(self._pending_fix_vals, dtype=np.float64)
-                    self.solver.changeColsBounds(len(idxs), idxs, vals, vals)
-                if self._pending_lb_vars:
-                    idxs = np.array([v.index for v in self._pending_lb_vars], dtype=np.int32)
-                    lbs  = np.array(self._pending_lb_vals, dtype=np.float64)
-                    # Prefer dedicated lower bound update if available, else fall back to bounds change with UB unchanged
-                    if hasattr(self.solver, "changeColsLower"):
-                        self.solver.changeColsLower(len(idxs), idxs, lbs)
-                    else:
-                        # As a conservative fallback, raise LB via changeColsBounds using current UBs fetched via getCols
-                        # (getCol returns (status, cost, lower, upper, nnz); unlike getCols it does not require a sorted index set)
-                        current_ubs = np.array([self.solver.getCol(int(j))[3] for j in idxs], dtype=np.float64)
-                        self.solver.changeColsBounds(len(idxs), idxs, lbs, current_ubs)
+                final_bounds = {}  # column index -> [lb, ub]
+                for kind, var, value in self._pending_bound_updates:
+                    j = int(var.index)
+                    if j not in final_bounds:
+                        # (getCol returns (status, cost, lower, upper, nnz))
+                        col = self.solver.getCol(j)
+                        final_bounds[j] = [col[2], col[3]]
+                    final_bounds[j][0] = value
+                    if kind == "fix":
+                        final_bounds[j][1] = value
+                idxs = np.array(sorted(final_bounds), dtype=np.int32)
+                lbs = np.array([final_bounds[int(j)][0] for j in idxs], dtype=np.float64)
+                ubs = np.array([final_bounds[int(j)][1] for j in idxs], dtype=np.float64)
+                self.solver.changeColsBounds(len(idxs), idxs, lbs, ubs)
 
         finally:
-            # Clear queues regardless of success
-            self._pending_fix_vars.clear()
-            self._pending_fix_vals.clear()
-            self._pending_lb_vars.clear()
-            self._pending_lb_vals.clear()
+            # Clear the queue regardless of success
+            self._pending_bound_updates.clear()
 
     def add_variables(self, indexes, name_prefix: str, lb=0, ub=1, var_type="integer"):
         """Create a set of variables sharing a common name prefix.
